@@ -539,6 +539,28 @@ fn seeds() -> Vec<(&'static str, Vec<Top>)> {
             ]),
         ],
     ));
+    // several early returns in expression position inside one tuple / list / blob literal
+    {
+        let early = |n: i64, v: i64, alt: i64| if_e(bin(BinOp::Gt, var("q"), int(n)), vec![Stmt::Ret(Some(int(v)))], Some(vec![Stmt::Expr(int(alt))]));
+        v.push((
+            "seed:returns-inside-literals",
+            vec![
+                keep(),
+                Top::Blob { name: "P".into(), fields: vec![("x".into(), Ty::Int), ("y".into(), Ty::Int)] },
+                top_fn("ft", vec![("q", Some(Ty::Int))], RetAnn::Ty(Ty::Int), vec![def("t", Expr::Tuple(vec![early(5, 100, 1), early(3, 200, 2), early(1, 300, 3)])), Stmt::Expr(bin(BinOp::Add, Expr::Index(Box::new(var("t")), 0), Expr::Index(Box::new(var("t")), 2)))]),
+                top_fn("fl", vec![("q", Some(Ty::Int))], RetAnn::Ty(Ty::Int), vec![def("t", Expr::List(vec![early(5, 100, 1), early(3, 200, 2)])), print_of(var("t")), Stmt::Expr(int(7))]),
+                top_fn("fb", vec![("q", Some(Ty::Int))], RetAnn::Ty(Ty::Int), vec![def("t", Expr::Blob("P".into(), vec![("x".into(), early(5, 100, 1)), ("y".into(), early(3, 200, 2))])), Stmt::Expr(bin(BinOp::Add, field(var("t"), "x"), field(var("t"), "y")))]),
+                start_fn(vec![
+                    print_of(bin(BinOp::Add, callv("ft", vec![int(0)]), int(1))),
+                    print_of(bin(BinOp::Add, callv("ft", vec![int(4)]), int(1))),
+                    print_of(bin(BinOp::Add, callv("ft", vec![int(9)]), int(1))),
+                    print_of(bin(BinOp::Add, callv("fl", vec![int(4)]), int(1))),
+                    print_of(bin(BinOp::Add, callv("fb", vec![int(9)]), int(1))),
+                    print_of(bin(BinOp::Add, callv("fb", vec![int(0)]), int(1))),
+                ]),
+            ],
+        ));
+    }
     // value of an if/case used afterwards
     v.push((
         "seed:branch-values",
